@@ -63,6 +63,22 @@ def _random_jobs(rng, n):
     wide = [b"a", b"b", b" ", b"ab", b"aa", b"\n", b"\xff", b",", b"aba", b"\t"]
     for _ in range(n):
         k = rng.random()
+        if rng.random() < 0.12:
+            # long separators / patterns (15-40 characters) at the start, in the middle, at the end, repeated
+            sep = b"".join(rng.choice([b"a", b"b", b"ab", b"-"]) for _ in range(rng.choice([15, 16, 17, 21, 32, 40])))[:rng.choice([15, 16, 17, 21, 32])]
+            parts = [b"".join(rng.choice(wide) for _ in range(rng.randint(0, 5))) for _ in range(rng.randint(1, 4))]
+            s_ = sep.join(parts)
+            if rng.random() < 0.5:
+                s_ += sep * rng.randint(1, 2)
+            if rng.random() < 0.3:
+                s_ = sep + s_
+            if rng.random() < 0.1:
+                s_ = b""
+            if k < 0.5:
+                yield ("split", s_, sep)
+            else:
+                yield ("repl", s_, sep, rng.choice([b"", b"x", sep[:-1], sep + b"!"]))
+            continue
         s = b"".join(rng.choice(wide) for _ in range(rng.randint(0, 40)))
         p = b"".join(rng.choice(wide[:6]) for _ in range(rng.randint(0, 3)))
         if k < 0.3:
